@@ -7,6 +7,7 @@ package app
 
 import (
 	"bytes"
+	"compress/gzip"
 	"fmt"
 	"io"
 	"os"
@@ -373,10 +374,33 @@ func c15Asset(t *testing.T, rep *vh.Report, work, src, name string, quick bool) 
 				add("byte-flipped", x)
 			}
 			add("garbage", []byte("{not json"))
+			// well-formed JSON (gzipped where the file is) that is not a representation record
+			for _, doc := range []string{"null", "[]", "{}", `"x"`, "1", "true", `{"segments":null}`, `{"id":null,"segments":[null]}`} {
+				if strings.HasSuffix(f, ".gz") {
+					var zb bytes.Buffer
+					zw := gzip.NewWriter(&zb)
+					_, _ = zw.Write([]byte(doc))
+					_ = zw.Close()
+					add("other-json", zb.Bytes())
+				} else {
+					add("other-json", []byte(doc))
+				}
+			}
 			for vi, va := range variants {
 				restore()
 				_ = os.WriteFile(f, va.b, 0o644)
-				srv, err := vNewServer(root, meta, false)
+				srv, err := func() (s *Server, err error) {
+					defer func() {
+						if r := recover(); r != nil {
+							err = fmt.Errorf("start-up panicked: %v", r)
+							rep.Violate("C15.a", "damaged-server-panic:"+va.kind, fmt.Sprintf("%s %s: the server crashed at start-up instead of scanning the asset: %v", filepath.Base(f), va.kind, r), map[string]any{"asset": name, "file": filepath.Base(f), "damage": va.kind, "variant": vi})
+						}
+					}()
+					return vNewServer(root, meta, false)
+				}()
+				if err != nil && strings.HasPrefix(err.Error(), "start-up panicked") {
+					continue
+				}
 				if err != nil {
 					rep.Violate("C15.a", "damaged-server:"+tag, err.Error(), nil)
 					continue
